@@ -19,6 +19,9 @@ type W struct {
 	MaxList   int // longest SEQUENCE OF
 	OptBits   int // OPTIONAL fields present
 	OpenDepth int // deepest nesting of open types
+	// OutsideRoot: values written through the extension of an extensible constraint (a size or a number outside
+	// the root): encodable, but not values of this version of the specification
+	OutsideRoot int
 	depth     int
 	// fault injection (C14): the Fault.At-th structural field written is altered
 	Fault *Fault
@@ -255,6 +258,7 @@ func (w *W) Sized(n int, lb, ub int64, ext bool, hasBounds bool, emit func(from,
 			w.put("ext-size", 0, 1)
 		} else {
 			w.put("ext-size", 1, 1)
+			w.OutsideRoot++
 			constrained = false
 		}
 	} else if hasBounds && (int64(n) < lb || int64(n) > ub) {
@@ -291,6 +295,7 @@ func (w *W) Integer(n int64, p P) error {
 				w.put("ext-int", 0, 1)
 			} else {
 				w.put("ext-int", 1, 1)
+				w.OutsideRoot++
 				return w.unconstrainedInt(n)
 			}
 		}
@@ -513,6 +518,7 @@ func (w *W) enc(v reflect.Value, p P) error {
 				w.Aligns += inner.Aligns
 				w.BigRange += inner.BigRange
 				w.OptBits += inner.OptBits
+				w.OutsideRoot += inner.OutsideRoot
 				if inner.MaxList > w.MaxList {
 					w.MaxList = inner.MaxList
 				}
